@@ -3,7 +3,7 @@
    below 2^52 in magnitude.  The heart: for |p| < 2^52 and 0 < |q| < 2^64 the binary64 quotient of
    p by q, rounded to the nearest integer with halves away from zero, is the exact quotient rounded
    the same way (the float error is below 1/(2|q|), and an exact half k + 1/2 is representable). *)
-From Coq Require Import ZArith Reals Lia Lra Psatz Bool.
+From Coq Require Import ZArith Reals Lia Lra Psatz Bool List.
 From Flocq Require Import Core Relative BinarySingleNaN.
 From Verif Require Import Base.Int64 Base.Rha Base.RhaProofs Num.Amount Num.AmountProofs Num.AmountImpl.
 
@@ -342,6 +342,71 @@ Proof.
   replace (fits64 (rhaS p q)) with true; [reflexivity|].
   symmetry. unfold fits64, two63. apply andb_true_intro. split; [apply Z.leb_le|apply Z.ltb_lt]; lia.
 Qed.
+
+(* ---- divisors that are wrapped powers of ten: intPow(10, e) for 19 <= e <= 63 overflows int64 but
+   stays at least 2^55 in magnitude, so a numerator below 2^52 still rounds to 0, which is the
+   exact answer (10^19 > 2^53) ---- *)
+Lemma bpow_repr (e : Z) : (-1074 <= e)%Z -> generic_format radix2 fexp64 (bpow radix2 e).
+Proof. intros H. unfold fexp64. apply generic_format_FLT_bpow; [exact prec53|exact H]. Qed.
+
+Lemma f64_of_int_large (w : Z) : (2^55 <= Z.abs w <= 2^63)%Z ->
+  bpow radix2 55 <= Rabs (B2R (f64_of_int w)).
+Proof.
+  intros H. unfold f64_of_int.
+  pose proof (binary_normalize_correct 53 1024 prec53 emax1024 mode_NE w 0 false) as C.
+  cbv zeta in C.
+  assert (X : F2R (Float radix2 w 0) = IZR w).
+  { unfold F2R; cbn [Fnum Fexp]. change (bpow radix2 0) with 1. ring. }
+  rewrite X in C.
+  change (SpecFloat.fexp 53 1024) with fexp64 in C. change (round_mode mode_NE) with ZnearestE in C.
+  fold (rnd64 (IZR w)) in C.
+  rewrite Rlt_bool_true in C.
+  - destruct C as (A & _). rewrite A. unfold rnd64, fexp64.
+    apply abs_round_ge_generic; [apply FLT_exp_valid; exact prec53|apply valid_rnd_N|apply (bpow_repr 55); lia|].
+    rewrite <- abs_IZR. change (bpow radix2 55) with (IZR (2^55)). apply IZR_le. lia.
+  - apply Rle_lt_trans with (bpow radix2 63); [|apply bpow_lt; lia]. unfold rnd64, fexp64.
+    apply abs_round_le_generic; [apply FLT_exp_valid; exact prec53|apply valid_rnd_N|apply (bpow_repr 63); lia|].
+    rewrite <- abs_IZR. change (bpow radix2 63) with (IZR (2^63)). apply IZR_le. lia.
+Qed.
+
+Lemma f64_div_round_tiny (x y : f64) (p : Z) :
+  B2R x = IZR p -> is_finite x = true -> (Z.abs p < 2^52)%Z -> bpow radix2 55 <= Rabs (B2R y) ->
+  int64_of_f64 (f64_round (f64_div x y)) = Some 0%Z.
+Proof.
+  intros Hx Fx Hp Hy.
+  assert (B55 : 0 < bpow radix2 55) by apply bpow_gt_0.
+  assert (Y0 : B2R y <> 0). { intros E. rewrite E, Rabs_R0 in Hy. lra. }
+  pose proof (Bdiv_correct 53 1024 prec53 emax1024 mode_NE x y Y0) as C.
+  rewrite Hx in C.
+  change (SpecFloat.fexp 53 1024) with fexp64 in C. change (round_mode mode_NE) with ZnearestE in C.
+  fold (rnd64 (IZR p / B2R y)) in C.
+  assert (Q : Rabs (IZR p / B2R y) <= bpow radix2 (-3)).
+  { unfold Rdiv. rewrite Rabs_mult, Rabs_inv, <- abs_IZR.
+    assert (P1 : IZR (Z.abs p) <= bpow radix2 52).
+    { change (bpow radix2 52) with (IZR (2^52)). apply IZR_le. lia. }
+    assert (P0 : 0 <= IZR (Z.abs p)) by (apply IZR_le; lia).
+    apply Rle_trans with (bpow radix2 52 * / bpow radix2 55).
+    - apply Rmult_le_compat; [exact P0|apply Rlt_le, Rinv_0_lt_compat; lra|exact P1|].
+      apply Rinv_le_contravar; [exact B55|exact Hy].
+    - rewrite <- bpow_opp, <- bpow_plus. apply bpow_le. lia. }
+  assert (RQ : Rabs (rnd64 (IZR p / B2R y)) <= bpow radix2 (-3)).
+  { unfold rnd64, fexp64.
+    apply abs_round_le_generic; [apply FLT_exp_valid; exact prec53|apply valid_rnd_N|apply (bpow_repr (-3)); lia|exact Q]. }
+  rewrite Rlt_bool_true in C by (eapply Rle_lt_trans; [exact RQ|apply bpow_lt; lia]).
+  destruct C as (Dv & Df & _). rewrite Fx in Df. fold (f64_div x y) in Dv, Df.
+  destruct (Bnearbyint_correct 53 1024 emax1024 mode_NA (f64_div x y)) as (Rv & Rf & _).
+  fold (f64_round (f64_div x y)) in Rv, Rf.
+  rewrite Dv in Rv. rewrite Df in Rf. rewrite round_FIX_IZR in Rv.
+  change (round_mode mode_NA) with ZnearestA in Rv.
+  assert (Z0 : ZnearestA (rnd64 (IZR p / B2R y)) = 0%Z).
+  { apply Znearest_imp. rewrite Rminus_0_r. eapply Rle_lt_trans; [exact RQ|].
+    change (bpow radix2 (-3)) with (/8). lra. }
+  rewrite Z0 in Rv.
+  unfold int64_of_f64. rewrite Rf. cbv zeta.
+  assert (T : Btrunc (f64_round (f64_div x y)) = 0%Z).
+  { apply eq_IZR. rewrite (Btrunc_correct 53 1024 emax1024), Rv, round_FIX_IZR, Ztrunc_IZR. reflexivity. }
+  rewrite T. reflexivity.
+Qed.
 End FloatLevel.
 
 (* ================= int64 level ================= *)
@@ -406,6 +471,43 @@ Proof.
   - pose proof (pow10_le_mono e 18 H). pose proof pow10_18. pose proof (pow10_pos e). lia.
 Qed.
 
+(* intPow(10, e) for 19 <= e <= 63: overflowed, but of magnitude 2^55 .. 2^63 (checked on all 45) *)
+Lemma intpow10_wrapped_large (e : nat) : (19 <= e <= 63)%nat -> 2^55 <= Z.abs (intpow10 e) <= 2^63.
+Proof.
+  intros H.
+  assert (T : forallb (fun e => (2^55 <=? Z.abs (intpow10 e)) && (Z.abs (intpow10 e) <=? 2^63)) (seq 19 45) = true)
+    by (vm_compute; reflexivity).
+  rewrite forallb_forall in T. specialize (T e). rewrite in_seq in T.
+  assert (I : (19 <= e < 19 + 45)%nat) by lia. specialize (T I).
+  apply andb_true_iff in T. destruct T as [A B]. apply Z.leb_le in A, B. lia.
+Qed.
+
+Lemma pow10_19 : 2^53 < pow10 19.
+Proof. vm_compute. reflexivity. Qed.
+
+Lemma rha_small (n d : Z) : 0 < d -> 2 * Z.abs n < d -> rha n d = 0.
+Proof.
+  intros Hd H. unfold rha. destruct (0 <=? n) eqn:E.
+  - apply Z.leb_le in E. apply Z.div_small. lia.
+  - apply Z.leb_gt in E. rewrite Z.div_small by lia. reflexivity.
+Qed.
+
+(* int64(math.Round(float64(p) / float64(intPow(10, e)))) for every e below 64 *)
+Lemma f64_div_pow10_exact (x : f64) (p : Z) (e : nat) :
+  B2R x = IZR p -> is_finite x = true -> Z.abs p < 2^52 -> (e <= 63)%nat ->
+  int64_of_f64 (f64_round (f64_div x (f64_of_int (intpow10 e)))) = Some (rha p (pow10 e)).
+Proof.
+  intros Hx Fx Hp He. destruct (Nat.le_gt_cases e 18) as [L|G].
+  - destruct (f64_pow10_exact e L) as (Pv & Pf).
+    pose proof (pow10_pos e) as PP. pose proof (pow10_le_mono e 18 L). pose proof pow10_18.
+    rewrite (f64_div_round_exact _ _ _ _ Hx Pv Fx) by lia.
+    rewrite rhaS_pos by lia. reflexivity.
+  - pose proof (intpow10_wrapped_large e ltac:(lia)) as W.
+    rewrite (f64_div_round_tiny _ _ _ Hx Fx Hp (f64_of_int_large _ W)).
+    pose proof (pow10_le_mono 19 e G). pose proof pow10_19.
+    rewrite rha_small by lia. reflexivity.
+Qed.
+
 (* ================= impl = spec ================= *)
 Ltac guards :=
   repeat match goal with
@@ -424,11 +526,8 @@ Proof.
   destruct (f64_of_int_exact (val a)) as (Av & Af); [lia|].
   destruct (f64_of_int_exact (val b)) as (Bv & Bf); [lia|].
   destruct (f64_mul_exact _ _ _ _ Av Bv Af Bf) as (Mv & Mf); [lia|].
-  destruct (f64_pow10_exact (exp b)) as (Pv & Pf); [assumption|].
-  pose proof (pow10_pos (exp b)) as PP. pose proof (pow10_le_mono (exp b) 18 ltac:(assumption)). pose proof pow10_18.
   unfold impl_mul, mul. apply rounded_some.
-  rewrite (f64_div_round_exact _ _ _ _ Mv Pv Mf) by lia.
-  rewrite rhaS_pos by lia. reflexivity.
+  apply (f64_div_pow10_exact _ _ _ Mv Mf); assumption.
 Qed.
 
 Theorem div_exact a b : in_domain_div a b = true -> impl_div a b = Defined (div a b).
@@ -447,11 +546,7 @@ Proof.
   destruct (Nat.ltb e (exp a)) eqn:E1.
   - guards.
     destruct (f64_of_int_exact (val a)) as (Av & Af); [lia|].
-    destruct (f64_pow10_exact (exp a - e)) as (Pv & Pf); [assumption|].
-    pose proof (pow10_pos (exp a - e)) as PP.
-    pose proof (pow10_le_mono (exp a - e) 18 ltac:(assumption)). pose proof pow10_18.
-    apply rounded_some. rewrite (f64_div_round_exact _ _ _ _ Av Pv Af) by lia.
-    rewrite rhaS_pos by lia. reflexivity.
+    apply rounded_some. apply (f64_div_pow10_exact _ _ _ Av Af); assumption.
   - destruct (Nat.ltb (exp a) e) eqn:E2; [|reflexivity].
     guards. rewrite scaled_exact by assumption. reflexivity.
 Qed.
